@@ -5,6 +5,7 @@ import kcorr
 
 ID = 'C07'
 LEVEL = 'proof'
+STATIC_DIRS = ['C01', 'C05']
 TRANSLATE = {'modules': [
     {'py': 'src/scippneutron/_utils/__init__.py', 'coq': 'GenUtils',
      'functions': ['elem_unit', 'elem_dtype', 'float_dtype', 'as_float_type']},
